@@ -311,6 +311,13 @@ class AttnActor(AttentionModelDecoder):
         cache = self._precompute_cache(hidden, num_starts=num_starts)
         return td, env, (cache,)
 
+    def forward(self, td: TensorDict, cached: Any, num_starts: int = 0):
+        # the hook above hands the cache over as a 1-tuple (L2DDecoder unpacks it); when the actor is used
+        # directly as the decoder of a ConstructivePolicy (L2DAttnPolicy) the tuple arrives as it is
+        if isinstance(cached, tuple):
+            cached = cached[0]
+        return super().forward(td, cached, num_starts)
+
 
 class L2DAttnActor(AttnActor):
     def __init__(
